@@ -2513,6 +2513,8 @@ PPL::Polyhedron::positive_time_elapse_assign_impl(const Polyhedron& y) {
 
   gen_sys.set_sorted(false);
   clear_generators_minimized();
+  // The new generator system has no pending rows.
+  clear_pending_generators();
   // Generators are now up-to-date.
   set_generators_up_to_date();
   // Constraints are not up-to-date.
